@@ -241,6 +241,12 @@ func c20Gen(rng *core.Rng, tier string) *harness.Plan {
 	for i := 0; i < rng.IntN(3); i++ {
 		p.Ops = append(p.Ops, harness.Op{At: int64(rng.Dur(3*time.Second, dur) / time.Microsecond), Kind: "crash", N: rng.IntN(9), A: int64(300 + rng.IntN(5000))})
 	}
+	if rng.Chance(0.6) {
+		// a failing disk under the round-transition writes of some nodes
+		for i := 0; i < 1+rng.IntN(4); i++ {
+			p.Ops = append(p.Ops, harness.Op{At: int64(rng.Dur(3*time.Second, dur) / time.Microsecond), Kind: "failround", N: rng.IntN(9), A: int64(rng.IntN(2)), B: int64(rng.IntN(3) / 2)})
+		}
+	}
 	p.Params["byz_refs"] = 1
 	if rng.Chance(0.3) {
 		p.Params["byz_refs"] = 0
